@@ -156,6 +156,7 @@ package main
 //@   requires [non-nil] opts != nil
 //@   ghost attacked bool = false
 //@   at call Attack: ghost attacked = true
+//@   forbid [only-the-signal-pump-stops-the-attack] call Stop
 //@   ensures [unlimited-rate-demands-max-workers] old(opts.maxWorkers) == 18446744073709551615 && old(opts.rate.Freq) == 0 ==> err != nil && !attacked
 //@   loop 1
 //@     invariant -1 <= rangeindex && rangeindex < 2 && opts == old(opts) && !attacked && files != nil
